@@ -238,12 +238,12 @@ Definition preserve_constants (fs : list (string * value)) : bool :=
 
 (* which tuple fields Visit<c> passes through sorted(); everything else is kept in order:
    Function.signatures, Signature.params, Class.bases/keywords/template, GenericType.parameters,
-   TypeParameter.constraints, and Class.constants of dataclass-like / namedtuple classes *)
-Definition sorts (c : string) (fs : list (string * value)) (n : string) : bool :=
+   TypeParameter.constraints, and Class.constants of dataclass-like / namedtuple classes
+   ([pc] = _PreserveConstantsOrdering(node)) *)
+Definition sorts (c : string) (pc : bool) (n : string) : bool :=
   if c =? "TypeDeclUnit" then mem n ["constants"; "type_params"; "functions"; "classes"; "aliases"]
   else if c =? "Class" then
-    mem n ["methods"; "decorators"; "classes"; "slots"]
-    || ((n =? "constants") && negb (preserve_constants fs))
+    mem n ["methods"; "decorators"; "classes"; "slots"] || ((n =? "constants") && negb pc)
   else if c =? "Signature" then mem n ["template"; "exceptions"]
   else if c =? "UnionType" then n =? "type_list"
   else false.
@@ -261,27 +261,32 @@ Definition sort_tup (v : value) : value :=
 Definition post_tup (v : value) : value :=
   match v with VTup l => VTup (post_init l) | _ => v end.
 
-(* node_class( *new_children ): only the _SetOfTypes classes have a __post_init__ *)
-Definition rebuild (c : string) (fs : list (string * value)) : list (string * value) :=
-  if is_setof c
-  then map (fun p => (fst p, if fst p =? "type_list" then post_tup (snd p) else snd p)) fs
-  else fs.
+(* What happens to one field [v] (its children already visited) of a visited node:
+   1. _VisitNode: new_node = node_class( *new_children ) - only the _SetOfTypes classes have a
+      __post_init__, which renormalises type_list                                    [isset]
+   2. visitor.Visit(new_node): VisitTypeDeclUnit / VisitClass / VisitSignature / VisitUnionType
+      pass some tuples through sorted()                                                [srt]
+      (pytd.UnionType(tuple(sorted(node.type_list))) runs __post_init__ once more      [uni])
+      and the freshly built TypeDeclUnit / Class has an empty lookup cache             [rst] *)
+Definition tr_flags (isset srt rst uni : bool) (v : value) : value :=
+  let v1 := if isset then post_tup v else v in
+  if srt then (if uni then post_tup (sort_tup v1) else sort_tup v1)
+  else if rst then empty_dict
+  else v1.
 
-(* visitor.Visit(new_node): VisitTypeDeclUnit, VisitClass, VisitSignature, VisitUnionType
-   (pytd.UnionType(tuple(sorted(node.type_list))) runs __post_init__ once more) *)
-Definition visit (c : string) (fs : list (string * value)) : list (string * value) :=
-  map (fun p =>
-         (fst p,
-          if sorts c fs (fst p)
-          then (if c =? "UnionType" then post_tup (sort_tup (snd p)) else sort_tup (snd p))
-          else if resets c (fst p) then empty_dict
-          else snd p)) fs.
+Definition tr (c : string) (pc : bool) (n : string) (v : value) : value :=
+  tr_flags (is_setof c && (n =? "type_list")) (sorts c pc n) (resets c n) (c =? "UnionType") v.
+
+(* the children of a visited node after the recursive visit (what the Visit function sees) *)
+Definition tr_fields (c : string) (g : list (string * value)) : list (string * value) :=
+  map (fun p => (fst p, tr c (preserve_constants g) (fst p) (snd p))) g.
 
 (* _VisitNode: post-order; tuples are mapped; classes outside visit_class_names are returned
    as they are.  The `changed` flag of the real code only decides whether node_class( ... ) is
-   called again, which is unobservable except through __post_init__; [rebuild] always applies it,
+   called again, which is unobservable except through __post_init__; the model always applies it,
    which agrees with the real code on every value whose set-types are already flattened and
-   duplicate-free (true of everything the pytd constructors can build; monitored). *)
+   duplicate-free (true of everything the pytd constructors can build; monitored).
+   _PreserveConstantsOrdering is evaluated on the node rebuilt from the visited children. *)
 Fixpoint canon (v : value) : value :=
   match v with
   | VAtom _ _ _ => v
@@ -289,7 +294,7 @@ Fixpoint canon (v : value) : value :=
   | VTup l => VTup (map canon l)
   | VNode c fs =>
       if mem c visit_class_names
-      then VNode c (visit c (rebuild c (map (fun p => (fst p, canon (snd p))) fs)))
+      then VNode c (tr_fields c (map (fun p => (fst p, canon (snd p))) fs))
       else v
   end.
 
@@ -340,7 +345,6 @@ Definition eq_separatedb (l : list value) : bool :=
   forallb (fun x => forallb (fun y => implb (veqb x y) (value_eqb x y)) l) l.
 Definition flatb (l : list value) : bool := forallb (fun x => negb (is_setof_node x)) l.
 
-(* the children of a visited node after the recursive visit (what the Visit function sees) *)
 Definition visited_children (fs : list (string * value)) : list (string * value) :=
   map (fun p => (fst p, canon (snd p))) fs.
 
@@ -359,7 +363,7 @@ Inductive ok (k : bool) : value -> Prop :=
      forall l, field "type_list" (visited_children fs) = Some (VTup l) -> flat l /\ eq_separated l) ->
     (k = true ->
      forall n l, In (n, VTup l) (visited_children fs) ->
-                 sorts c (visited_children fs) n = true -> key_separated l) ->
+                 sorts c (preserve_constants (visited_children fs)) n = true -> key_separated l) ->
     ok k (VNode c fs).
 
 Definition keys_separate (u : value) : Prop := ok true u.
@@ -383,7 +387,7 @@ Fixpoint okb (k : bool) (v : value) {struct v} : bool :=
             else true)
         && (if k
             then forallb (fun p => match snd p with
-                                   | VTup l => if sorts c (visited_children fs) (fst p)
+                                   | VTup l => if sorts c (preserve_constants (visited_children fs)) (fst p)
                                                then key_separatedb l else true
                                    | _ => true
                                    end) (visited_children fs)
@@ -401,7 +405,7 @@ Inductive deep_perm : value -> value -> Prop :=
     Forall2 (fun p q =>
                fst p = fst q /\
                (deep_perm (snd p) (snd q) \/
-                (sorts c (visited_children fs) (fst p) = true /\
+                (sorts c (preserve_constants (visited_children fs)) (fst p) = true /\
                  exists l l1 l', snd p = VTup l /\ Forall2 deep_perm l l1 /\
                                  Permutation l1 l' /\ snd q = VTup l'))) fs fs' ->
     deep_perm (VNode c fs) (VNode c fs').
